@@ -194,10 +194,14 @@ class SGroups(SList):
 
 
 class SObj:
-    def __init__(self, kind, attrs=None, path=None):
+    def __init__(self, kind, attrs=None, path=None, cls=None):
         self.kind = kind
         self.attrs = attrs or {}
         self.path = path or kind
+        self.cls = cls          # ClassInfo of an in-package instance
+
+    def __repr__(self):
+        return f"<SObj {self.kind} {sorted(self.attrs)}>"
 
 
 class SNone:
@@ -216,10 +220,11 @@ class Raised:
 
 
 class Outcome:
-    def __init__(self, conds, value, kind="return"):
+    def __init__(self, conds, value, kind="return", env=None):
         self.conds = tuple(conds)
         self.value = value
         self.kind = kind  # return | raise
+        self.env = env
 
     def cond_text(self):
         return " and ".join((c if b else f"not ({c})") for c, b in self.conds) or "always"
@@ -255,7 +260,7 @@ def _copy_val(v, memo):
         c.items = {k: _copy_val(x, memo) for k, x in v.items.items()}
         return c
     if isinstance(v, SObj):
-        c = SObj(v.kind, None, v.path)
+        c = SObj(v.kind, None, v.path, v.cls)
         memo[i] = c
         c.attrs = {k: _copy_val(x, memo) for k, x in v.attrs.items()}
         return c
@@ -286,7 +291,7 @@ class SymEvaluator:
         self.notes = []
 
     # -- entry ------------------------------------------------------------
-    def run(self, fn, args=None, self_obj=None):
+    def run(self, fn, args=None, self_obj=None, use_defaults=False):
         """Evaluate function `fn`; args: dict param -> value (missing params
         become symbolic `$name`).  Returns list[Outcome]."""
         env = {}
@@ -308,6 +313,11 @@ class SymEvaluator:
         for p in params:
             if p in args:
                 env[p] = args[p]
+            elif use_defaults and p in defaults:
+                try:
+                    env[p] = self._lift(self.folder.eval_in(fn.module, defaults[p]))
+                except AnalysisError:
+                    env[p] = Param(p, defaults.get(p))
             else:
                 env[p] = Param(p, defaults.get(p))
         self.fn = fn
@@ -316,7 +326,7 @@ class SymEvaluator:
         paths = [_Path(env, [])]
         self._block(fn.node.body, paths, outcomes, fn)
         for p in paths:
-            outcomes.append(Outcome(p.conds, NONE))
+            outcomes.append(Outcome(p.conds, NONE, env=p.env))
         return outcomes
 
     def _locals_of(self, fn):
@@ -379,10 +389,10 @@ class SymEvaluator:
             return res
         if isinstance(st, ast.Return):
             if st.value is None:
-                outcomes.append(Outcome(p.conds, NONE))
+                outcomes.append(Outcome(p.conds, NONE, env=p.env))
                 return []
             for pp, v in self._eval(st.value, p, fn):
-                outcomes.append(Outcome(pp.conds, v))
+                outcomes.append(Outcome(pp.conds, v, env=pp.env))
             return []
         if isinstance(st, ast.Raise):
             name = "?"
@@ -402,6 +412,31 @@ class SymEvaluator:
             return [p]
         if isinstance(st, ast.Assert):
             return [p]
+        if isinstance(st, ast.For):
+            res = []
+            for pp, seq in self._eval(st.iter, p, fn):
+                if not isinstance(seq, (list, tuple)):
+                    raise AnalysisError(f"symeval: loop over a symbolic sequence in {fn.key}: {src(st.iter)[:60]}")
+                cur = [pp]
+                for item in seq:
+                    nxt = []
+                    for q in cur:
+                        self._assign(st.target, item, q, fn)
+                        sub = [q]
+                        self._block(st.body, sub, outcomes, fn)
+                        nxt.extend(sub)
+                    cur = nxt
+                res.extend(cur)
+            return res
+        if isinstance(st, ast.Try):
+            # only the no-exception flow of the protected body is modelled
+            sub = [p]
+            self._block(st.body, sub, outcomes, fn)
+            if st.orelse:
+                self._block(st.orelse, sub, outcomes, fn)
+            if st.finalbody:
+                self._block(st.finalbody, sub, outcomes, fn)
+            return sub
         raise AnalysisError(f"symeval: unsupported statement {type(st).__name__} in {fn.key}: {src(st)[:80]}")
 
     def _assign(self, t, v, p, fn):
@@ -493,8 +528,12 @@ class SymEvaluator:
             return bool(v.known)
         if isinstance(v, str):
             return bool(v)
-        if isinstance(v, Param) and v.default_is_none_const():
-            return None
+        if isinstance(v, SObj) and v.cls is not None:
+            return True
+        if isinstance(v, (list, tuple, dict)):
+            return bool(v)
+        if isinstance(v, EnumMember):
+            return True
         return None
 
     def _canon(self, test, p, fn, v=None):
@@ -681,7 +720,7 @@ class SymEvaluator:
         b = self.index.resolve(fn.module, name)
         if b is None:
             if name in ("int", "float", "str", "len", "round", "divmod", "abs", "min", "max", "bool",
-                        "isinstance", "Fraction"):
+                        "isinstance", "Fraction", "getattr", "setattr", "any", "all", "hasattr"):
                 return Builtin(name)
             if name == "True":
                 return True
@@ -722,6 +761,17 @@ class SymEvaluator:
         return v
 
     def _binop(self, op, l, r, node):
+        if isinstance(l, SObj) and l.cls is not None:
+            name = {ast.Add: "__add__", ast.Sub: "__sub__", ast.Mult: "__mul__"}.get(type(op))
+            m = l.cls.find_method(name) if name else None
+            if m is None:
+                raise AnalysisError(f"symeval: operator on {l.kind} without {name}")
+            res = self._apply(BoundMethod(m, l), [r], {}, _Path({}, []), node, m)
+            vals = [v for _, v in res]
+            if len(vals) != 1:
+                raise AnalysisError(f"symeval: {name} forks")
+            self._pending_conds = res[0][0].conds
+            return vals[0]
         if isinstance(op, ast.Add) and (isinstance(l, SStr) or isinstance(r, SStr)):
             if isinstance(l, SStr) and isinstance(r, SStr):
                 known = l.known + r.known if l.known is not None and r.known is not None else None
@@ -829,6 +879,16 @@ class SymEvaluator:
         if isinstance(base, SObj):
             if attr in base.attrs:
                 return base.attrs[attr]
+            if base.cls is not None:
+                m = base.cls.find_method(attr)
+                if m is not None:
+                    if m.kind == "property":
+                        raise AnalysisError(f"symeval: property {attr} not modelled")
+                    return BoundMethod(m, base)
+                c, v = base.cls.find_class_attr(attr)
+                if c is not None:
+                    return self._lift(self.folder.eval_in(c.module, v))
+                return SAttr(base, attr)
             if base.kind == "timedelta":
                 raise AnalysisError(f"symeval: timedelta.{attr} not modelled")
             if base.kind == "self" and fn.cls is not None:
@@ -884,7 +944,12 @@ class SymEvaluator:
                 for pp, av, kv in argsets:
                     for p2, v in self._eval(k.value, pp, fn):
                         kv2 = dict(kv)
-                        kv2[k.arg] = v
+                        if k.arg is None:
+                            if not isinstance(v, dict):
+                                raise AnalysisError("symeval: ** of a non-dict")
+                            kv2.update(v)
+                        else:
+                            kv2[k.arg] = v
                         nxt.append((p2, av, kv2))
                 argsets = nxt
             for pp, av, kv in argsets:
@@ -927,7 +992,7 @@ class SymEvaluator:
                     argmap[params[i]] = a
             for k, v in kw.items():
                 argmap[k] = v
-            outs = sub.run(target, argmap, self_obj=selfobj)
+            outs = sub.run(target, argmap, self_obj=selfobj, use_defaults=True)
             res = []
             for o in outs:
                 pp = p.fork()
@@ -938,7 +1003,31 @@ class SymEvaluator:
                 res.append((pp, o.value))
             return res
         if isinstance(f, ClassVal):
-            return [(p, SObj(f"inst:{f.cls.name}", {"_args": args, "_kw": kw}))]
+            init = f.cls.find_method("__init__")
+            obj = SObj(f"inst:{f.cls.name}", {}, f"<{f.cls.name}>", cls=f.cls)
+            if init is None or self.depth > 6:
+                obj.attrs["_args"] = args
+                obj.attrs["_kw"] = kw
+                return [(p, obj)]
+            sub = SymEvaluator(self.index, self.folder, self.assume)
+            sub.stubs = self.stubs
+            sub.cond_objs = self.cond_objs
+            sub.depth = self.depth + 1
+            params = init.params[1:]
+            argmap = {}
+            for i, a in enumerate(args):
+                if i < len(params):
+                    argmap[params[i]] = a
+            argmap.update(kw)
+            res = []
+            for o in sub.run(init, argmap, self_obj=obj, use_defaults=True):
+                pp = p.fork()
+                pp.conds.extend(o.conds)
+                if o.kind == "raise":
+                    self._sink.append(Outcome(pp.conds, o.value, "raise"))
+                    continue
+                res.append((pp, o.env[init.params[0]] if o.env else obj))
+            return res
         raise AnalysisError(f"symeval: call of {type(f).__name__}: {src(node)[:60]}")
 
     def _builtin(self, name, args, kw, node):
@@ -992,7 +1081,45 @@ class SymEvaluator:
         if name == "bool":
             return Cmp(f"truthy({_show(args[0])})")
         if name == "isinstance":
-            return Cmp(f"isinstance({_show(args[0])}, ...)")
+            a, c = args[0], args[1]
+            if isinstance(c, EnumClass):
+                if isinstance(a, EnumMember):
+                    return a.cls is c
+                if isinstance(a, (Poly, SStr, SObj, SNone)):
+                    return False
+            if isinstance(c, ClassVal):
+                if isinstance(a, SObj) and a.cls is not None:
+                    return c.cls in a.cls.mro()
+                if isinstance(a, (Poly, SStr, SNone, EnumMember)):
+                    return False
+            return Cmp(f"isinstance({_show(a)}, {_show(c)})")
+        if name == "getattr":
+            obj, nm = args[0], args[1]
+            if isinstance(nm, SStr) and nm.known is not None:
+                if isinstance(obj, SObj):
+                    if nm.known in obj.attrs:
+                        return obj.attrs[nm.known]
+                    if len(args) > 2:
+                        return args[2]
+                    return SAttr(obj, nm.known)
+                if isinstance(obj, (Param, SAttr)):
+                    return SAttr(obj, nm.known)
+                if isinstance(obj, SNone) and len(args) > 2:
+                    return args[2]
+            raise AnalysisError("symeval: getattr with a symbolic name")
+        if name == "setattr":
+            obj, nm, val = args
+            if isinstance(obj, SObj) and isinstance(nm, SStr) and nm.known is not None:
+                obj.attrs[nm.known] = val
+                return NONE
+            raise AnalysisError("symeval: setattr with a symbolic name")
+        if name == "any" or name == "all":
+            seq = args[0]
+            if isinstance(seq, (list, tuple)):
+                ts = [self._truth(x) for x in seq]
+                if all(t is not None for t in ts):
+                    return any(ts) if name == "any" else all(ts)
+            return Cmp(f"{name}({_show(seq)})")
         raise AnalysisError(f"symeval: builtin {name}")
 
     def _external(self, name, args, kw, node):
